@@ -247,22 +247,33 @@ class World(object):
             return paths
         noise = 'INSERT INTO S_DT VALUES (1, 0, \'not part of the model\', \'\', \'\');\n'
         if route == 'bp_dir':
-            root = os.path.join(tmp, 'model')
-            for k, ch in enumerate(chunks):
-                d = os.path.join(root, *['pkg%d' % j for j in range(k % 3)])
-                os.makedirs(d, exist_ok=True)
-                with open(os.path.join(d, 'part%d.xtuml' % k), 'w', encoding='utf-8', newline='') as f:
-                    f.write(file_form(ch, rnd))
-            with open(os.path.join(root, 'notes.txt'), 'w') as f:
-                f.write(noise)
-            return [root]
-        if route == 'bp_zip':
-            p = os.path.join(tmp, 'model.zip')
-            with zipfile.ZipFile(p, 'w') as z:
+            # one directory tree, or two trees whose files carry the same names
+            roots = [os.path.join(tmp, 'model%d' % j) for j in range(2 if len(chunks) > 2 else 1)]
+            half = (len(chunks) + len(roots) - 1) // len(roots)
+            for j, root in enumerate(roots):
                 for k, ch in enumerate(chunks):
-                    z.writestr('/'.join(['pkg%d' % j for j in range(k % 3)] + ['part%d.xtuml' % k]), file_form(ch, rnd))
-                z.writestr('readme.txt', noise)
-            return [p]
+                    if k // half == j:
+                        i = k % half
+                        d = os.path.join(root, *['pkg%d' % x for x in range(i % 3)])
+                        os.makedirs(d, exist_ok=True)
+                        with open(os.path.join(d, 'part%d.xtuml' % i), 'w', encoding='utf-8', newline='') as f:
+                            f.write(file_form(ch, rnd))
+                os.makedirs(root, exist_ok=True)
+                with open(os.path.join(root, 'notes.txt'), 'w') as f:
+                    f.write(noise)
+            return roots
+        if route == 'bp_zip':
+            # one archive, or two archives whose members carry the same names
+            paths = [os.path.join(tmp, 'model%d.zip' % j) for j in range(2 if len(chunks) > 1 else 1)]
+            half = (len(chunks) + len(paths) - 1) // len(paths)       # (statement order is kept: the first archive holds
+            for j, p in enumerate(paths):                              # the first chunks)
+                with zipfile.ZipFile(p, 'w') as z:
+                    for k, ch in enumerate(chunks):
+                        if k // half == j:
+                            i = k % half
+                            z.writestr('/'.join(['pkg%d' % x for x in range(i % 3)] + ['part%d.xtuml' % i]), file_form(ch, rnd))
+                    z.writestr('readme.txt', noise)
+            return paths
         raise SystemExit('unknown route %r' % route)
 
     def render_population(self, rows, rnd, order='schema_first', nchunks=1, named=None, parts=None, modes=None):
